@@ -15,6 +15,7 @@ from ..cfg import CFG, EXIT
 from ..core import AnalysisError, Func, Repo, Report, call_name, calls_in, chain, norm, walk_local
 from ..dataflow import DefUse
 from ..resolve import Resolver
+from .util import canon
 
 ACCUMULATORS = {
     "referenced_signal_names": "program-wide set of names that were read; only ever grows (set.add) and is consumed after lowering",
@@ -256,3 +257,23 @@ def run(repo: Repo, rep: Report, tier: str) -> None:
     from .shared import borrow as _borrow15
     _borrow15(repo, rep, "C10", "C10-R2", "C15-R8", "a constant argument bound to a Signal parameter has several consumers in the inlined body: the optimizer keeps it while any node, effect nodes included, still reads it",
               select=lambda o: "scan for other consumers" in o.construct or "IREntityPropWrite" in o.construct or "IRMemWrite" in o.construct, floor=3)
+
+    # ---------------- R9 ---------------------------------------------------------------
+    rep.rule("C15-R9", "names of the caller survive a call unchanged: after the body is lowered, the lowerer's name tables (signal_refs, entity_refs) are put back from a snapshot "
+             "(`.copy()` / dict(...)) taken before the body, not rebuilt from the table the body has been writing to (a body-local `Signal x` would otherwise replace the caller's x)")
+    inl = repo.func("ExpressionLowerer.lower_function_call_inline")
+    ci = canon(inl)
+    n9 = 0
+    for tbl in ("signal_refs", "entity_refs"):
+        stores = [n for n in walk_local(inl.node) if isinstance(n, ast.Assign) and norm(n.targets[0]) == f"self.parent.{tbl}"]
+        if not stores:
+            rep.bad("C15-R9", f"lower_function_call_inline restores {tbl}", f"no store to self.parent.{tbl} after the body: declarations of the callee stay visible in the caller", inl.loc())
+            continue
+        for st in stores:
+            n9 += 1
+            alts = ci.alts(st.value)
+            snap = (f"self.parent.{tbl}.copy()", f"dict(self.parent.{tbl})", f"{{**self.parent.{tbl}}}")
+            ok9 = all(a in snap for a in alts)
+            rep.check(ok9, "C15-R9", f"lower_function_call_inline restores {tbl} from a snapshot", alts[0][:80] if ok9 else
+                      f"restored from `{alts[0][:100]}`: built from the table as the body left it, so a caller's name the body re-declared keeps the body's value", inl.loc(st))
+    rep.floor("C15-R9", "restore stores", n9, 2)
